@@ -128,6 +128,7 @@ func c08R1(c *Ctx, lx *lexerModel) {
 	}
 	// (b) forward taint of the width through the lexer's methods
 	uses := 0
+	var widthFns map[*ssa.Function]bool
 	for _, f := range w.FuncsIn(lx.pkg) {
 		if f.Decl == nil || f.Decl.Recv == nil || f.Body == nil || typeStr(f.Sig().Recv().Type()) != "*parser.IndentAwareLexer" || f == lx.measure {
 			continue
@@ -139,6 +140,55 @@ func c08R1(c *Ctx, lx *lexerModel) {
 		tainted := map[ssa.Value]string{}
 		isStackFn := func(callee *ssa.Function, prefix string) bool {
 			return callee != nil && strings.Contains(callee.String(), "container.Stack[int]") && strings.HasPrefix(callee.Name(), prefix)
+		}
+		// lexer methods that hand back a width of the stack or 0 ("the current level"): every return is Peek()/Pop() of the
+		// indent stack, the constant 0, or a merge of those
+		if widthFns == nil {
+			widthFns = map[*ssa.Function]bool{}
+			for _, g := range w.FuncsIn(lx.pkg) {
+				if g.Decl == nil || g.Decl.Recv == nil || g.Body == nil || g == lx.measure || g.Sig().Results().Len() != 1 || !isIntType(g.Sig().Results().At(0).Type()) {
+					continue
+				}
+				sg := w.SSAFunc(g)
+				if sg == nil {
+					continue
+				}
+				var fromStack func(v ssa.Value, depth int) bool
+				fromStack = func(v ssa.Value, depth int) bool {
+					if depth > 4 {
+						return false
+					}
+					switch y := v.(type) {
+					case *ssa.Const:
+						return y.Value != nil && y.Value.ExactString() == "0"
+					case *ssa.Call:
+						cal := y.Call.StaticCallee()
+						return isStackFn(cal, "Peek") || isStackFn(cal, "Pop")
+					case *ssa.Phi:
+						for _, e := range y.Edges {
+							if !fromStack(e, depth+1) {
+								return false
+							}
+						}
+						return true
+					}
+					return false
+				}
+				all, nret := true, 0
+				for _, b := range sg.Blocks {
+					for _, in := range b.Instrs {
+						if r, ok := in.(*ssa.Return); ok {
+							nret++
+							if len(r.Results) != 1 || !fromStack(r.Results[0], 0) {
+								all = false
+							}
+						}
+					}
+				}
+				if all && nret > 0 {
+					widthFns[sg] = true
+				}
+			}
 		}
 		for changed := true; changed; {
 			changed = false
@@ -155,7 +205,7 @@ func c08R1(c *Ctx, lx *lexerModel) {
 							switch {
 							case callee == measure:
 								why = "width"
-							case isStackFn(callee, "Peek") || isStackFn(callee, "Pop"):
+							case isStackFn(callee, "Peek") || isStackFn(callee, "Pop") || widthFns[callee]:
 								why = "width(from stack)"
 							case callee.String() == "strconv.Itoa" && tainted[x.Call.Args[0]] != "":
 								why = "text"
@@ -247,6 +297,10 @@ func c08R1(c *Ctx, lx *lexerModel) {
 						}
 					case *ssa.If:
 						ok, how = true, "branch"
+					case *ssa.Return:
+						if widthFns[sf] {
+							ok, how = true, "handed back by a function that returns the current level (a width of the stack, or 0)"
+						}
 					case *ssa.DebugRef:
 						ok, how = true, "debug"
 					}
@@ -405,18 +459,36 @@ func c08R2(c *Ctx, lx *lexerModel) {
 	dependsOnLA := func(e ast.Node) bool {
 		dep := false
 		holds := map[types.Object]bool{}
-		ast.Inspect(f.Body, func(n ast.Node) bool {
-			if as, ok := n.(*ast.AssignStmt); ok && len(as.Lhs) == 1 && len(as.Rhs) == 1 {
-				if _, ok := laCall(info, as.Rhs[0]); ok {
-					if id := identOf(as.Lhs[0]); id != nil {
-						if obj := info.Defs[id]; obj != nil {
-							holds[obj] = true
+		for changed := true; changed; {
+			changed = false
+			ast.Inspect(f.Body, func(n ast.Node) bool {
+				if as, ok := n.(*ast.AssignStmt); ok && len(as.Lhs) == 1 && len(as.Rhs) == 1 {
+					dep := false
+					ast.Inspect(as.Rhs[0], func(q ast.Node) bool {
+						switch y := q.(type) {
+						case *ast.CallExpr:
+							if _, ok := laCall(info, y); ok {
+								dep = true
+							}
+						case *ast.Ident:
+							if holds[info.Uses[y]] {
+								dep = true
+							}
+						}
+						return true
+					})
+					if dep {
+						if id := identOf(as.Lhs[0]); id != nil {
+							if obj := info.Defs[id]; obj != nil && !holds[obj] {
+								holds[obj] = true
+								changed = true
+							}
 						}
 					}
 				}
-			}
-			return true
-		})
+				return true
+			})
+		}
 		ast.Inspect(e, func(n ast.Node) bool {
 			switch n := n.(type) {
 			case *ast.CallExpr:
@@ -499,7 +571,19 @@ func c08R2(c *Ctx, lx *lexerModel) {
 					}
 					return 0, false
 				}
-				_, got, ok := evalIntExpr(info, g.Cond, nil, 0)
+				// the returning look-ahead guards that precede the first effect, taken together
+				got, ok := false, true
+				for _, gi := range guards {
+					if firstEffect != 0 && gi.Pos() > firstEffect {
+						continue
+					}
+					_, gv, gok := evalIntExpr(info, gi.Cond, nil, 0)
+					if !gok {
+						ok = false
+						break
+					}
+					got = got || gv
+				}
 				evalLeaf = nil
 				if !ok {
 					evaluable = false
